@@ -5,8 +5,13 @@ use crate::prelude::*;
 pub struct CommentFormatter {}
 
 fn format_line_comment(tok: &mut Token) {
+    // The lexer's blanks: everything up to U+0020, and the ideographic space.
+    fn trim_blank_end(s: &str) -> &str {
+        s.trim_end_matches(|c: char| c <= ' ' || c == '\u{3000}')
+    }
+
     fn comment_is_separator(comment: &str) -> bool {
-        let comment = comment.trim_ascii_end();
+        let comment = trim_blank_end(comment);
         comment.len() >= 10
             && comment.chars().next().is_some_and(|b| !b.is_alphanumeric())
             && comment.chars().all_equal()
@@ -32,11 +37,6 @@ fn format_line_comment(tok: &mut Token) {
         str.push(' ');
         str.push_str(comment);
         new_content = Some(str);
-    }
-
-    // The lexer's blanks: everything up to U+0020, and the ideographic space.
-    fn trim_blank_end(s: &str) -> &str {
-        s.trim_end_matches(|c: char| c <= ' ' || c == '\u{3000}')
     }
 
     let trimmed = trim_blank_end(content);
